@@ -118,15 +118,44 @@ func oracleC07(r *Rng, n int, thorough bool, seeds []string) *OracleResult {
 				}
 				p2 := *p
 				p2.Options = dhcpv4.Options{}
-				// interleave with deletions and overwrites that cancel out
-				for _, k := range keys {
-					p2.Options[k] = []byte{1, 2, 3}
+				if rep == 0 {
+					// plain map writes, interleaved with deletions and overwrites that cancel out
+					for _, k := range keys {
+						p2.Options[k] = []byte{1, 2, 3}
+					}
+					if len(keys) > 0 {
+						delete(p2.Options, keys[0])
+					}
+					for _, k := range keys {
+						p2.Options[k] = p.Options[k]
+					}
+				} else {
+					// the same through the exported update/delete calls, the two packets
+					// sharing their value slices as callers do (seeded change C07-6: an
+					// update reusing the stored slice's storage wrote into the other packet)
+					for _, k := range keys {
+						p2.UpdateOption(dhcpv4.OptGeneric(dhcpv4.GenericOptionCode(k), p.Options[k]))
+					}
+					for _, k := range keys {
+						other := make([]byte, len(p.Options[k]))
+						for i := range other {
+							other[i] = ^p.Options[k][i]
+						}
+						if rep == 2 && len(other) > 1 {
+							other = other[:len(other)-1]
+						}
+						p2.UpdateOption(dhcpv4.OptGeneric(dhcpv4.GenericOptionCode(k), other))
+					}
+					if len(keys) > 0 {
+						p2.DeleteOption(dhcpv4.GenericOptionCode(keys[0]))
+					}
+					for _, k := range keys {
+						p2.UpdateOption(dhcpv4.OptGeneric(dhcpv4.GenericOptionCode(k), p.Options[k]))
+					}
 				}
-				if len(keys) > 0 {
-					delete(p2.Options, keys[0])
-				}
-				for _, k := range keys {
-					p2.Options[k] = p.Options[k]
+				if !bytes.Equal(b, p.ToBytes()) {
+					what = "the packet's encoding changed while ANOTHER packet sharing its option values was updated"
+					return
 				}
 				if !bytes.Equal(b, p2.ToBytes()) {
 					what = "same contents, different insertion order, different bytes"
@@ -145,6 +174,32 @@ func oracleC07(r *Rng, n int, thorough bool, seeds []string) *OracleResult {
 			res.Samples = append(res.Samples, s)
 		}
 	}
+	// outside the C01 domain only the layout of the options area is claimed, and
+	// for ANY option map (C07_area: keys 0 and 255 never reach the wire): header
+	// fields are put back into the domain, the option map is kept
+	layoutOnly := func(p *dhcpv4.DHCPv4, line string) {
+		res.Evaluations++
+		res.Tags["layout-only"]++
+		q := *p
+		if len(q.ClientHWAddr) > 16 {
+			q.ClientHWAddr = q.ClientHWAddr[:16]
+		}
+		q.ServerHostName, q.BootFileName = "", ""
+		var what string
+		func() {
+			defer func() {
+				if e := recover(); e != nil {
+					what = fmt.Sprint("panic: ", e)
+				}
+			}()
+			if w := validateWire4(q.ToBytes()); w != "" {
+				what = "not canonical: " + w
+			}
+		}()
+		if what != "" {
+			res.fail(Failure{Oracle: "c07", Input: "v4enc " + showPkt4(&q), What: what, Class: "v4-canonical"})
+		}
+	}
 	for _, s := range seeds {
 		toks := strings.Fields(s)
 		if len(toks) > 1 && toks[0] == "v4enc" {
@@ -153,11 +208,20 @@ func oracleC07(r *Rng, n int, thorough bool, seeds []string) *OracleResult {
 				p := parsePkt4(toks[1:])
 				if inC01Domain(p) {
 					check(p, s)
+				} else {
+					layoutOnly(p, s)
 				}
 			}()
 		}
 	}
 	for i := 0; i < n; i++ {
+		if i%8 == 7 {
+			p := genPkt4(r.Fork(), false)
+			if !inC01Domain(p) {
+				layoutOnly(p, "v4enc "+showPkt4(p))
+				continue
+			}
+		}
 		p := genPkt4(r.Fork(), true)
 		check(p, "v4enc "+showPkt4(p))
 		res.Tags[fmt.Sprintf("nopts=%d", min(len(p.Options), 8))]++
